@@ -28,25 +28,42 @@ def discover(chk):
     if active is None or released is None:
         raise Undecided("active / released child sets not found in FactoryPool.__init__", init.node)
     roles = {}
-    for fis in cls.methods.values():
-        for fi in fis:
-            src = ast.unparse(fi.node)
-            if "self.%s.add" % released in src:
-                roles["release"] = fi
-            if "self.factory(" in src:
-                roles["grow"] = fi
-    for fis in cls.methods.values():
-        for fi in fis:
-            if fi in roles.values() or fi.name in ("__init__", "run"):
+    meths = [prog.pick(fis) for fis in cls.methods.values()]
+    meths = [f for f in meths if f is not None and f.name not in ("__init__", "run")]
+
+    def own_calls(f, seen=None):
+        """names of own methods f calls, transitively through helpers"""
+        seen = seen if seen is not None else set()
+        out = set()
+        for n in ast.walk(f.node):
+            if isinstance(n, ast.Call) and isinstance(n.func, ast.Attribute) and util.dotted(n.func.value) == "self":
+                out.add(n.func.attr)
+                g = prog.lookup_method(cls, n.func.attr)
+                if g is not None and g.qual not in seen and g.cls is cls:
+                    seen.add(g.qual)
+                    out |= own_calls(g, seen)
+        return out
+
+    for f in meths:
+        if any(isinstance(n, ast.Call) and isinstance(n.func, ast.Attribute) and n.func.attr == "add" and util.dotted(n.func.value) == "self." + released for n in ast.walk(f.node)):
+            roles["release"] = f
+    rel = roles.get("release")
+    if rel is not None:
+        for f in meths:
+            if f is rel:
                 continue
-            calls = [n.func.attr for n in ast.walk(fi.node) if isinstance(n, ast.Call) and isinstance(n.func, ast.Attribute) and util.dotted(n.func.value) == "self"]
-            rel = roles.get("release")
-            if rel is not None and rel.name in calls:
-                loops = [n for n in ast.walk(fi.node) if isinstance(n, ast.For)]
-                if any("sorted" in ast.unparse(n) for n in ast.walk(fi.node) if isinstance(n, ast.Call)) or "excess" in ast.unparse(fi.node):
-                    roles["shrink"] = fi
-                else:
-                    roles["reap"] = fi
+            direct = {n.func.attr for n in ast.walk(f.node) if isinstance(n, ast.Call) and isinstance(n.func, ast.Attribute) and util.dotted(n.func.value) == "self"}
+            if rel.name in direct and not f.params() and any(isinstance(n, ast.For) for n in ast.walk(f.node)):
+                roles["reap"] = f
+        reap_ = roles.get("reap")
+        for f in meths:
+            if f in (rel, reap_) or not f.params():
+                continue
+            calls = own_calls(f)
+            if "factory" in calls:
+                roles["grow"] = f
+            elif rel.name in calls and any(isinstance(n, ast.For) for n in ast.walk(f.node)):
+                roles["shrink"] = f
     for need in ("release", "grow", "shrink", "reap"):
         if need not in roles:
             raise Undecided("the %s step of FactoryPool was not found" % need, cls.node)
@@ -91,6 +108,11 @@ def ownership(chk, cls, active, released, roles):
                 chk.count()
                 role = [k for k, v in roles.items() if v is fi]
                 role = role[0] if role else fi.name
+                if role == fi.name:
+                    callers = {g.name for gs in cls.methods.values() for g in gs for c_ in ast.walk(g.node) if isinstance(c_, ast.Call) and util.dotted(c_.func) == "self." + fi.name}
+                    for k, v in roles.items():
+                        if callers and callers <= {v.name}:
+                            role = k  # a helper of that step
                 allowed = False
                 if what == "assign" and fi.name == "__init__" and isinstance(node, ast.Assign):
                     allowed = True
